@@ -16,6 +16,7 @@ EXPLANATION = (
     "own accessor and tzinfo from the lossless attribute; types that inherit a hand-written path must be "
     "constructible by it (CTOR-LSP); Date/Timezone rely on the C base's reduce, which is complete for their "
     "state. NOT decided: byte encodings of the pickle protocols (stdlib)."
+    ' As built: for Duration, STATE-COMPLETE.tabulated runs __reduce__ and __deepcopy__ on instance stubs (both signs, every unit boundary, years/months) and requires the constructor arguments they produce to describe the same years, months and microseconds; the accessor-by-accessor comparison only decides when they are outside the interpreter.'
 )
 
 F7 = recon.DATE_F + recon.TIME_F
